@@ -55,6 +55,10 @@ ASSUMPTIONS = [
     'many bytes, nothing after the trailer',
     'keys are compared as UTF-8 bytes; the pandas / PANDAS_ATTRS entries are '
     'never named by generated updates and must survive like any other key',
+    'footers stay below 450 kB: above 500 000 bytes the C serialiser '
+    '(ThriftObject.to_bytes) writes past its buffer for multi-byte text or '
+    'metadata-only files - heap corruption, a native memory-safety matter '
+    '(C10/C12 domain) for which a simulator has no sound oracle',
 ]
 RESERVED = (b'pandas', b'PANDAS_ATTRS')
 TEXTS = ['', 'a', 'v', 'Zürich', '北京', 'x' * 7, 'y' * 8, 'k=v', '{"a": 1}']
@@ -91,7 +95,22 @@ def as_bytes(x):
     return x.encode('utf-8') if isinstance(x, str) else bytes(x)
 
 
-def gen_value(rng, n=None):
+def gen_value(rng, n=None, plain=False):
+    """plain: ASCII text or bytes only, sizes up to 250 kB.  The footer
+    serialiser of the C extension sizes its buffer as max(500 000, 1000 x
+    columns x row groups + number of *characters* of the key-value list)
+    (cencoding.pyx ThriftObject.to_bytes) and writes past it when a footer
+    above 500 000 bytes has multi-byte text in it or no row groups
+    (_common_metadata) - measured: heap corruption, not a clean failure.  That
+    is a memory-safety matter of native code (C10/C12 domain), it cannot be
+    repaired here (no Cython) and a simulator has no sound oracle for it, so
+    every history keeps its footer below 450 kB (see generate)."""
+    if plain:
+        if n is None:
+            n = rng.choice((0, 5, 130, 100000, 250000))
+        r = rng.random()
+        return 'v' * n if r < 0.5 else b'w' * n if r < 0.8 else \
+            bytes([0xFF, 0xFE] * (n // 2) + [0x80] * (n % 2))
     if n is None:
         r = rng.random()
         if r < 0.5:
@@ -146,11 +165,21 @@ def generate(seed, idx, tier):
                          '_common_metadata', 'part'))
     initial = {}
     used = set()
+    # 4% of the histories carry values of 100 kB / 250 kB (plain ones, and
+    # the key-value total stays below 400 kB: see gen_value)
+    big = rng.random() < 0.04
+    model = {}
+
+    def fit(val):
+        if big and sum(map(len, model.values())) + len(val) > 400000:
+            return val[:7]
+        return val
     for _ in range(rng.choice((0, 1, 2, 3, 5))):
         k = gen_key(rng, used)
         used.add(as_bytes(k))
-        initial[len(initial)] = [enc(k), enc(gen_value(rng))]
-    model = {as_bytes(dec(k)): as_bytes(dec(v)) for k, v in initial.values()}
+        v = fit(gen_value(rng, plain=big))
+        initial[len(initial)] = [enc(k), enc(v)]
+        model[as_bytes(k)] = as_bytes(v)
     updates = []
     for _ in range(rng.randrange(1, 7)):
         upd = []
@@ -164,7 +193,8 @@ def generate(seed, idx, tier):
                 old = model[kb]
                 delta = rng.choice((-64, -17, -9, -8, -7, -5, -3, -2, -1, -1,
                                     0, 1, 1, 2, 3, 5, 7, 8, 8, 9, 17, 64))
-                val = gen_value(rng, max(0, len(old) + delta))
+                val = fit(gen_value(rng, max(0, len(old) + delta),
+                                    plain=big))
                 key = spell(kb, rng)
                 upd.append([enc(key), enc(val)])
                 model[kb] = as_bytes(val)
@@ -181,13 +211,13 @@ def generate(seed, idx, tier):
                 seen.add(as_bytes(key))
             elif r < 0.72 and present:                   # replace, any size
                 kb = rng.choice(sorted(present))
-                val = gen_value(rng)
+                val = fit(gen_value(rng, plain=big))
                 upd.append([enc(spell(kb, rng, 1.0)), enc(val)])
                 model[kb] = as_bytes(val)
                 seen.add(kb)
             else:                                        # add
                 key = gen_key(rng, set(model) | seen)
-                val = gen_value(rng)
+                val = fit(gen_value(rng, plain=big))
                 upd.append([enc(key), enc(val)])
                 model[as_bytes(key)] = as_bytes(val)
                 seen.add(as_bytes(key))
